@@ -39,11 +39,13 @@ def lendet(w,n):
     elif n<16384: w.put(0x8000|n,16)
     else: raise Frag()
 EXACT_HITS=0
+SIZES=[]
 def lv_octets(w,data):
     """general length determinant + contents, with fragmentation (X.691 10.9.3.8): blocks of m*16K octets (m = 4..1), each
     preceded by the octet 11000mmm, then the remainder (possibly empty) with an ordinary length determinant"""
     global EXACT_HITS
     n=len(data); i=0
+    SIZES.append(n)
     if n and n%16384==0: EXACT_HITS+=1      # the remainder is empty: the encoding ends with the length octet 00
     while n-i>=16384:
         m=min((n-i)//16384,4); w.align(); w.put(0xC0|m,8); w.bytes_(data[i:i+m*16384]); i+=m*16384
